@@ -508,7 +508,7 @@ pub fn run(ctx: &Ctx) -> Outcome {
         for (c, co) in &res {
             judge(&mut out, c, co);
         }
-        if out.violations.len() >= 3 {
+        if fw::stop_early(&mut out) {
             // a violating tree: stop enumerating, the witnesses are enough (keeps a failing run short)
             out.note("stopped_early_after_violations", json!(true));
             break;
